@@ -672,7 +672,8 @@ func (r *Runner) patch(op *Op) string {
 		return fail(func(s int) bool { return s == 404 || (ce.Fails() && (s == 412 || (s == 304 && ce.OK304))) }, "patch of a missing object")
 	case ce.Fails():
 		r.label("precondition-failed")
-		return fail(func(s int) bool { return (s == 412 && ce.OK412) || (s == 304 && ce.OK304) }, fmt.Sprintf("failed precondition (412 ok=%v, 304 ok=%v)", ce.OK412, ce.OK304))
+		// with a malformed body as well, 400 is an equally valid answer (the order of the two checks is not specified)
+		return fail(func(s int) bool { return (s == 412 && ce.OK412) || (s == 304 && ce.OK304) || (s == 400 && op.BadBody != "") }, fmt.Sprintf("failed precondition (412 ok=%v, 304 ok=%v)", ce.OK412, ce.OK304))
 	case op.BadBody != "":
 		return fail(func(s int) bool { return s == 400 }, "malformed patch body must give 400")
 	}
